@@ -12,7 +12,8 @@ Import ListNotations.
 Open Scope Z_scope.
 
 (* For EVERY operation list (subscribe, unsubscribe one / all, node add / replace / remove, add_sdo
-   on any node object at any time, notify, listener frames, scanner reset) started from a fresh Network: the deliveries of every step are
+   on any node object at any time, a second associate_network of an attached node, connect /
+   disconnect of the bus, notify, listener frames, scanner reset) started from a fresh Network: the deliveries of every step are
    those of the reference multimap run on the same list; the subscribers dict stands for the
    reference multimap; no reference list has a duplicate (so: exactly the subscribed callbacks,
    once each, in subscription order - the reference appends on subscription and deletes on
@@ -70,6 +71,22 @@ Theorem C10_frame_format : forall (c : Z) (data : list Z) (remote : bool),
   send_message false c data remote = Err E_RUNTIME /\
   (forall p, periodic_task c data p remote = (f, [(f, p)])).
 Proof. exact frame_format. Qed.
+
+(* a periodic task after ANY sequence of update(data) calls, for both flavours of bus task (with /
+   without modify_data): the stored message and every message handed to the bus keep the id, the
+   remote flag, the frame format (extended iff id > 0x7FF) and carry the data of that update *)
+Theorem C10_periodic_update_format : forall modify period c data remote ds,
+  Forall2 (fun d sc => frame_ok c remote (fst (fst sc)) /\ f_data (fst (fst sc)) = d /\
+                       Forall (call_ok c remote d) (snd sc))
+          ds (periodic_updates modify period (periodic_start c data remote) ds).
+Proof. exact periodic_update_format. Qed.
+
+(* observation (candidate defect, see notes/C10.md): update() assigns msg.data and python-can keeps
+   the old dlc, so after an update with a payload of another length dlc <> len(data) *)
+Theorem C10_periodic_update_dlc_stale : forall modify period c data ds,
+  Forall (fun sc => snd (fst sc) = Z.of_nat (length data))
+         (periodic_updates modify period (periodic_start c data false) ds).
+Proof. exact periodic_update_dlc_stale. Qed.
 
 Theorem C10_listener_filters : forall (f : frame) (s : net),
   (f_err f = true \/ f_remote f = true -> listener f s = (s, [])) /\
@@ -144,6 +161,22 @@ Proof.
   - repeat constructor; discriminate.
 Qed.
 
+(* re-association of an attached node and a disconnect / connect cycle change nothing: one delivery
+   per callback before and after, and removal still silences the node *)
+Example C10_nv_reassoc_reconnect :
+  map log_of (snd (run_ops [OAdd nv_r5; OSub 133 1; OReassoc nv_r5; ONotify 133 [1] 1; ODisconnect; OConnect;
+                            ONotify 133 [2] 2; ONotify 2020 [3] 3; ODel 5; ONotify 133 [4] 4] init_net))
+  = [[]; []; []; [(HNode nv_r5 KEmcy, 133, [1], 1); (HUser 1, 133, [1], 1)]; []; [];
+     [(HNode nv_r5 KEmcy, 133, [2], 2); (HUser 1, 133, [2], 2)]; [(HLss, 2020, [3], 3)]; [];
+     [(HUser 1, 133, [4], 4)]].
+Proof. vm_compute. reflexivity. Qed.
+
+Example C10_nv_periodic_update :
+  map (fun sc => (f_ext (fst (fst sc)), f_data (fst (fst sc)), snd (fst sc), length (snd sc)))
+      (periodic_updates false 10 (periodic_start 291 [1; 2; 3] false) [[4; 5; 6; 7]; [4; 5; 6; 7]])
+  = [(false, [4; 5; 6; 7], 3, 2%nat); (false, [4; 5; 6; 7], 3, 0%nat)].
+Proof. vm_compute. reflexivity. Qed.
+
 Example C10_nv_scanner :
   scan [1797; 2433; 386; 1797; 128; 1539; 536872707; 1409; (-123)] = [5; 2; 1] /\
   names_node 1797 5 /\ ~ names_node 2433 1.
@@ -176,6 +209,8 @@ Print Assumptions C10_double_subscribe_once.
 Print Assumptions C10_unregistered_not_subscribed.
 Print Assumptions C10_removed_node_silent.
 Print Assumptions C10_frame_format.
+Print Assumptions C10_periodic_update_format.
+Print Assumptions C10_periodic_update_dlc_stale.
 Print Assumptions C10_listener_filters.
 Print Assumptions C10_scanner_spec.
 Print Assumptions C10_scanner_is_reference.
